@@ -17,6 +17,18 @@ def main():
         if r.returncode != 0:
             print(r.stdout[-4000:])
             rc = 2
+    # the example binaries of C16 (release, feature off), built from /repo's working tree
+    try:
+        sys.path.insert(0, os.path.join(VERIF, "exlab"))
+        import exlab
+        t0 = time.time()
+        ok, _dt = exlab.build()
+        print(f"example binaries: {'ok' if ok else 'FAILED'} {time.time()-t0:.1f}s")
+        if not ok:
+            rc = 2
+    except Exception as e:  # noqa
+        print("example build failed:", e)
+        rc = 2
     return rc
 
 
